@@ -97,6 +97,23 @@ def history(rnd, hist_id, length):
             plan.append('op')
             ops.append({'op': 'model.snap', 'm': m, 'rebuild': True})
             plan.append('snap')
+    if rnd.random() < 0.15:
+        # a calculation that is refused at run time (debool of a two-element set), then an edit of the global it used, then a
+        # calculation of ANOTHER constituent over the same global: no successful evaluation in between
+        motif = [{'op': 'model.op', 'm': m, 'k': 'addelem', 'uid': {'idx': 0}, 'name': 'f1'}, {'op': 'model.op', 'm': m, 'k': 'addelem', 'uid': {'idx': 0}, 'name': 'f2'},
+                 {'op': 'model.op', 'm': m, 'k': 'emplace', 'type': 'term', 'def': rnd.choice(['debool($[0])', '{debool($[0])}', 'debool($[0]\\$[0])'])},
+                 {'op': 'model.op', 'm': m, 'k': 'emplace', 'type': rnd.choice(['term', 'axiom']), 'def': rnd.choice(['$[0]∪$[0]', 'ℬ($[0])', 'card($[0])'])},
+                 {'op': 'model.op', 'm': m, 'k': 'calculate', 'uid': {'made': -2}},
+                 {'op': 'model.op', 'm': m, 'k': 'addelem', 'uid': {'idx': 0}, 'name': 'f3'},
+                 {'op': 'model.op', 'm': m, 'k': 'calculate', 'uid': {'made': -1}},
+                 {'op': 'model.op', 'm': m, 'k': 'calculate', 'uid': {'made': -2}}]
+        if motif[3]['type'] == 'axiom':
+            motif[3]['def'] = rnd.choice(['card($[0])=3', '$[0]=$[0]∪$[0]', 'card(ℬ($[0]))=8'])
+        for op in motif:
+            ops.append(op)
+            plan.append('op')
+            ops.append({'op': 'model.snap', 'm': m, 'rebuild': True})
+            plan.append('snap')
     if shape == 'funcs' and rnd.random() < 0.5:
         # the same caller is calculated immediately before and after the body of the function it calls (directly / through another
         # function) is edited: nothing else is evaluated on this model in between
